@@ -67,6 +67,7 @@ type pathState struct {
 	uf       map[string]*smt.Term // uninterpreted environment results on this path
 	usedUF   bool
 	pools    map[*value][]value // sync.Pool contents on this path
+	wlock    int                // write locks currently held (Mutex.Lock, RWMutex.Lock, inside Once.Do)
 	syncMaps map[*value]*smap
 	// violation found mid-path (assert); path stops at first
 }
